@@ -189,6 +189,15 @@ Definition add_from_str (s : net) (reaction : string) (rule : option string) (pa
       end
   end.
 
+(** the rule add_rxn_from_str reads from the suffix of a line (text after the first "|"), if any: the same test parse_rxns
+    makes before it falls back to its [default_rule] (repo fix of round 5: before, a line without a rule suffix got add_rxn's
+    "r" whatever [default_rule] said) *)
+Definition suffix_rule (line : string) : option chars :=
+  let rc := to_chars line in
+  if bool_decide ("|"%char ∈ rc) then rule_search (strip (split_first (is_char "|") rc).2) else None.
+Definition rule_or_default (line default_rule : string) : option string :=
+  match suffix_rule line with Some _ => None | None => Some default_rule end.
+
 (** re.search of  \| \s* rule \s* = \s* [^\s]+  in a line (used by parse_rxns to decide whether a suffix may override
     an explicit per-line rule) *)
 Fixpoint bar_rule_search (l : chars) : bool :=
@@ -207,7 +216,7 @@ Definition parse_item (s : net) (line : string) (explicit : option string) (defa
         if bar_rule_search (to_chars line) then add_from_str s line None true
         else add_from_str s line (Some r) false
       else add_from_str s line (Some r) false
-  | None => if parse_suffix then add_from_str s line None true
+  | None => if parse_suffix then add_from_str s line (rule_or_default line default_rule) true
             else add_from_str s line (Some default_rule) false
   end.
 
@@ -221,14 +230,14 @@ Definition parse_items (s : net) (items : list (string * option string)) (defaul
            end) (s, None) items.
 
 (** parse_rxns on an iterable of plain strings (the only form rxns_to_hypergraph produces): no explicit
-    per-line rule, so [prefer_suffix] is never consulted and [default_rule] is used only when suffix
-    parsing is off. *)
+    per-line rule, so [prefer_suffix] is never consulted; [default_rule] is the rule of every line that carries no
+    rule suffix (or of every line, when suffix parsing is off). *)
 Definition parse_rxns (s : net) (lines : list string) (default_rule : string) (parse_suffix prefer_suffix : bool)
   : net * option cerr :=
   foldl (λ acc line,
            match acc with
            | (s, Some e) => (s, Some e)
-           | (s, None) => if parse_suffix then add_from_str s line None true
+           | (s, None) => if parse_suffix then add_from_str s line (rule_or_default line default_rule) true
                           else add_from_str s line (Some default_rule) false
            end) (s, None) lines.
 Definition rxns_to_hypergraph (lines : list string) (default_rule : string) (ps pf : bool) : net * option cerr :=
